@@ -70,7 +70,7 @@ def make_ds(kind, n=6, collators=None):
 # ----------------------------------------------------------------------------------------------
 # wrapper recipes for C08: (label, builder(seed) -> wrapper, [(item getter name)], input kind)
 # ----------------------------------------------------------------------------------------------
-def wrapper_recipes():
+def wrapper_recipes(random_keys=None):
     import kappadata.transforms as T
     from kappadata.wrappers import XTransformWrapper, KDMultiViewWrapper, KDMixWrapper, SemsegTransformWrapper
     from kappadata.wrappers.dataset_wrappers.subset_wrapper import SubsetWrapper
@@ -145,11 +145,91 @@ def wrapper_recipes():
     R.append(("st", lambda s: SourceTransformWrapper(make_ds("tensor"), transform=T.KDRandomCrop(size=3, padding=1), seed=s), ["source"]))
     R.append(("xt-pil", lambda s: XTransformWrapper(make_ds("pil"), transform=[
         T.KDRandomResizedCrop(size=8), T.KDRandomHorizontalFlip(), T.KDColorJitter(0.4, 0.4, 0.2, 0.1)], seed=s), ["class", "x"]))
+    # -- compositions of two features of the transform layer below a seeded wrapper: a composite member that holds a stochastic transform but is
+    #    itself flagged deterministic (KDScheduledTransform; a user KDTransform that forwards set_rng) next to ordinary members of a compose
+    #    (explicit, list spelling, multi-view config, segmentation list, nested in apply / choice / patchwise)
+    def sched_pipeline():
+        return T.KDComposeTransform([
+            T.KDRandomHorizontalFlip(p=0.5), T.KDScheduledTransform(transform=T.KDAdditiveGaussianNoise(std=0.5)), T.KDImageRangeNorm()])
+
+    R.append(("xt-compose-scheduled", lambda s: XTransformWrapper(make_ds("tensor"), transform=sched_pipeline(), seed=s), ["x"]))
+    R.append(("xt-list-scheduled", lambda s: XTransformWrapper(make_ds("tensor"), transform=[
+        T.KDRandomHorizontalFlip(p=0.5), T.KDScheduledTransform(transform=T.KDAdditiveGaussianNoise(std=0.5))], seed=s), ["x"]))
+    R.append(("multiview-compose-scheduled", lambda s: KDMultiViewWrapper(
+        make_ds("tensor"), configs=[(2, sched_pipeline()), (1, T.KDScheduledTransform(transform=[T.KDColorJitter(0.4, 0.4, 0.2, 0.1)]))], seed=s), ["x"]))
+    R.append(("xt-deep-scheduled", lambda s: XTransformWrapper(make_ds("tensor"), transform=T.KDComposeTransform([
+        T.KDRandomApply(transform=T.KDComposeTransform([T.KDImageRangeNorm(), T.KDScheduledTransform(
+            transform=T.KDRandomAdditiveGaussianNoise(std=0.5, p=0.7))]), p=0.8),
+        T.PatchwiseTransform(patch_size=8, transform=[T.KDScheduledTransform(transform=T.KDRandomCrop(size=8, padding=2)), T.KDImageRangeNorm()])]),
+        seed=s), ["x"]))
+    R.append(("semseg-scheduled", lambda s: SemsegTransformWrapper(make_ds("tensor"), transforms=[
+        T.KDSemsegRandomHorizontalFlip(), T.KDComposeTransform([T.KDImageRangeNorm(), T.KDScheduledTransform(
+            transform=T.KDColorJitter(0.4, 0.4, 0.2, 0.1))])], seed=s), ["xsemseg"]))
+    R.append(("xt-user-holder", lambda s: XTransformWrapper(make_ds("tensor"), transform=[
+        T.KDRandomHorizontalFlip(p=0.5), user_holder()(T.KDAdditiveGaussianNoise(std=0.5)), T.KDImageRangeNorm()], seed=s), ["x"]))
+    # -- random nestings of every composite transform kind (rngflow.random_composition) in the transform slots of the seeded wrappers
+    for key in (random_keys or []):
+        rr = pyrandom.Random(f"c08:{key}")
+        kind = rr.choice(["xt", "xt-list", "multiview", "xt-over-subset", "tt-over-xt"])
+        depth = rr.randint(1, 3)
+        names = _random_wrapper(kind, key, depth, 0)[1]
+        R.append((f"random:{key}:{kind}:{names}", lambda s, kind=kind, key=key, depth=depth: _random_wrapper(kind, key, depth, s)[0],
+                  {"tt-over-xt": ["target", "x"]}.get(kind, ["x"])))
     return R
 
 
+def user_holder():
+    """a user-written KDTransform that holds another transform and forwards the generator (like the package's scheduled transform it does
+    not override is_deterministic)"""
+    from kappadata.transforms.base.kd_transform import KDTransform
+
+    class Holder(KDTransform):
+        def __init__(self, transform):
+            super().__init__()
+            self.transform = transform
+
+        def set_rng(self, rng):
+            self.transform.set_rng(rng)
+            return self
+
+        def __call__(self, x, ctx=None):
+            return self.transform(x, ctx=ctx)
+
+    return Holder
+
+
+def _random_wrapper(kind, key, depth, seed):
+    """(seeded stack, description) for a random recipe; the compositions are rebuilt identically from `key` on every call"""
+    import kappadata.transforms as T
+    from kappadata.wrappers import XTransformWrapper, KDMultiViewWrapper
+    from kappadata.wrappers.dataset_wrappers.subset_wrapper import SubsetWrapper
+    from kappadata.wrappers.sample_wrappers.target_transform_wrapper import TargetTransformWrapper
+    from .rngflow import random_composition
+    rr = pyrandom.Random(f"c08t:{key}")
+    names = []
+
+    def rand_t(d=depth):
+        n, t = random_composition(rr, d)
+        names.append(n)
+        return t
+
+    if kind == "xt":
+        w = XTransformWrapper(make_ds("tensor"), transform=T.KDComposeTransform([rand_t(), rand_t(max(depth - 1, 0))]), seed=seed)
+    elif kind == "xt-list":
+        w = XTransformWrapper(make_ds("tensor"), transform=[rand_t(), T.KDImageRangeNorm(), rand_t(max(depth - 1, 0))], seed=seed)
+    elif kind == "multiview":
+        w = KDMultiViewWrapper(make_ds("tensor"), configs=[(2, T.KDComposeTransform([rand_t(), T.KDImageRangeNorm()])), (1, rand_t())], seed=seed)
+    elif kind == "xt-over-subset":
+        w = XTransformWrapper(SubsetWrapper(make_ds("tensor"), indices=[4, 2, 0, 5]), transform=rand_t(), seed=seed)
+    else:
+        w = TargetTransformWrapper(XTransformWrapper(make_ds("tensor"), transform=[rand_t()], seed=seed + 3),
+                                   transform=[T.KDAdditiveGaussianNoise(std=0.3)], seed=seed)
+    return w, "+".join(names)
+
+
 MULTI_LAYER = ("subset-over-xt", "xt-over-xt", "mix-over-xt", "xt-over-mix", "xt-over-xt-over-mix", "subset-over-xt-over-mix", "mix-over-xt-modes",
-               "xt-over-semseg", "xt-over-multiview", "tt-over-xt")
+               "xt-over-semseg", "xt-over-multiview", "tt-over-xt",
+               "xt-user-holder")     # (a user-defined transform class has no row in the generated table: behavioural oracle only)
 ATOMIC_ITEMS = ("x", "class", "semseg", "y", "target", "source")
 FUSED = {"xclass": [("x", "class")], "xsemseg": [("x", "semseg")]}
 
@@ -373,7 +453,7 @@ class C08(PropertyCheck):
         for step, i in enumerate(order):
             scramble(500 + step)
             hist = ""
-            if step == n_access // 2 and label != "xt-scheduled":
+            if step == n_access // 2 and "scheduled" not in label:
                 # history: after some reads in the main process the same object is initialised as a dataloader worker would
                 # (its transforms get fresh generators from the global state) -- a seeded request must not notice
                 # (scheduled: once a worker is initialised the strength follows the schedule by design, C15)
@@ -458,10 +538,10 @@ class C08(PropertyCheck):
                     "distinct = (recipe, seed, item, tree shape)")
         # seed 0 is always included: `if self.seed:` style truthiness slips treat it as "no seed"
         seeds = [0, 3 + self.seed] if self.tier == "quick" else [0] + [3 + self.seed + 7 * k for k in range(4)]
-        R = wrapper_recipes()
+        R = wrapper_recipes([f"{self.seed}-{k}" for k in range(6 if self.tier == "quick" else 30)])
         reqs, metas = [], []
         for label, build, items in R:
-            if label in MULTI_LAYER:
+            if label in MULTI_LAYER or label.startswith("random:"):
                 continue   # several seeded layers in one stack: covered by the behavioural oracle only
             for sd in seeds[1:2]:
                 try:
@@ -519,7 +599,7 @@ class C08(PropertyCheck):
                     res.failures.append(f)
         if self.tier == "thorough":
             for label, build, items in R:
-                if label in ("mugs", "xt-scheduled"):
+                if label == "mugs" or "scheduled" in label:
                     # mugs: heavy; scheduled: once a worker is initialised the strength follows the schedule by design
                     # (C15), i.e. the value is a function of (data, config, seed, i, schedule position)
                     continue
@@ -538,7 +618,7 @@ class C08(PropertyCheck):
     def search(self, budget_s, hints):
         out = []
         t0 = time.time()
-        for label, build, items in wrapper_recipes():
+        for label, build, items in wrapper_recipes([f"search-{k}" for k in range(10)]):
             for sd in (0, 1, 5):
                 if time.time() - t0 > budget_s:
                     return out
@@ -549,7 +629,9 @@ class C08(PropertyCheck):
         return out
 
     def replay_input(self, inp):
-        for label, build, items in wrapper_recipes():
+        label = inp.get("recipe") or ""
+        keys = [label.split(":")[1]] if label.startswith("random:") and label.count(":") >= 2 else None
+        for label, build, items in wrapper_recipes(keys):
             if label == inp.get("recipe"):
                 return self.oracle(label, build, items, inp.get("seed", 1), n_access=inp.get("n_access", 25), order_key=inp.get("order_key"))
         return None
